@@ -180,6 +180,26 @@ Proof. exact cds_views_example. Qed.
 Theorem C14_ms_of_today_range : forall s, 0 <= cds_ms_of_today s < 86400000.
 Proof. exact cds_ms_of_today_range. Qed.
 Print Assumptions C14_ms_of_today_range.
+(* ... and it is the millisecond of the day of floor(s * 1000), or of the neighbouring millisecond
+   when the exact product s * 1000 = N / D lies within 2^-10 ms of that neighbour (the product
+   is rounded to a double).  s = fm s * 2^(fe s), non-zero, below 2^44 / 1000 seconds. *)
+Theorem C14_ms_of_today_close : forall s,
+  fm s <> 0 -> fe s < 0 -> Z.abs (fm s) * 1000 < 2 ^ (- fe s) * 2 ^ 44 ->
+  let N := fm s * 1000 in let D := 2 ^ (- fe s) in
+  cds_ms_of_today s = (N / D) mod 86400000 \/
+  (cds_ms_of_today s = (N / D + 1) mod 86400000 /\ 2 ^ 10 * (D - N mod D) <= D) \/
+  (cds_ms_of_today s = (N / D - 1) mod 86400000 /\ 2 ^ 10 * (N mod D) <= D).
+Proof. exact cds_ms_of_today_close. Qed.
+Print Assumptions C14_ms_of_today_close.
+
+(* the Unix seconds cached by from_datetime (dt.timestamp()) are within 2^-21 s of the datetime *)
+Theorem C14_from_datetime_unix_seconds_close : forall ud sod us,
+  dt_instant_us ud sod us <> 0 -> Z.abs (dt_instant_us ud sod us) < 1000000 * 2 ^ 33 ->
+  fl_close (dt_timestamp ud sod us) (dt_instant_us ud sod us) 1000000 21 /\
+  fl_normal (dt_timestamp ud sod us).
+Proof. exact dt_timestamp_close. Qed.
+Print Assumptions C14_from_datetime_unix_seconds_close.
+
 Example C14_ms_of_today_inhabited :
   cds_ms_of_today (rne 863999995 10000) = 86399999 /\ cds_ms_of_today (rne 1009995 10000) = 100999 /\
   cds_ms_of_today (rne (-1) 2) = 86399500.
